@@ -1,0 +1,71 @@
+//! Verification hooks (cargo feature `verif-hooks`, off by default).
+//!
+//! A single process-wide callback that is invoked at named yield points
+//! placed between the critical sections of the registration and dispatch
+//! paths.  The callback may delay, yield or log; it never decides anything.
+//! With the feature disabled this module does not exist and every call site
+//! of [`point`] is compiled out.
+use core::sync::atomic::{AtomicUsize, Ordering};
+
+static HOOK: AtomicUsize = AtomicUsize::new(0);
+
+/// Installs (or removes) the process-wide yield-point callback.
+pub fn set_hook(hook: Option<fn(u32)>) {
+    HOOK.store(hook.map(|f| f as usize).unwrap_or(0), Ordering::SeqCst);
+}
+
+/// A yield point. No-op unless a hook is installed.
+#[inline]
+pub fn point(site: u32) {
+    let hook = HOOK.load(Ordering::Relaxed);
+    if hook != 0 {
+        // safety: the only non-zero values ever stored are `fn(u32)` pointers.
+        let f: fn(u32) = unsafe { core::mem::transmute::<usize, fn(u32)>(hook) };
+        f(site);
+    }
+}
+
+/// Site identifiers.
+#[allow(missing_docs)]
+pub mod site {
+    // tracing-core/src/callsite.rs
+    pub const REG_BEFORE_READ: u32 = 1;
+    pub const REG_AFTER_READ: u32 = 2;
+    pub const REG_AFTER_INTEREST: u32 = 3;
+    pub const REG_AFTER_PUSH: u32 = 4;
+    pub const RD_BEFORE_WRITE: u32 = 5;
+    pub const RD_AFTER_WRITE: u32 = 6;
+    pub const RIC_BEFORE_WRITE: u32 = 7;
+    pub const RIC_AFTER_WRITE: u32 = 8;
+    pub const RI_BEFORE_SET_MAX: u32 = 9;
+    pub const LL_PUSH_BEFORE_CAS: u32 = 10;
+    pub const LL_PUSH_CAS_FAIL: u32 = 11;
+    pub const RD_AFTER_PUSH: u32 = 12;
+    pub const REG_UNLOCKED: u32 = 13;
+    pub const RD_UNLOCKED: u32 = 14;
+    pub const RIC_UNLOCKED: u32 = 15;
+    // tracing-core/src/dispatch.rs
+    pub const SGD_AFTER_CAS: u32 = 20;
+    pub const SGD_AFTER_STORE: u32 = 21;
+    pub const GD_AFTER_SCOPED_LOAD: u32 = 22;
+    pub const SD_AFTER_REPLACE: u32 = 23;
+    pub const DG_AFTER_DEC: u32 = 24;
+    // tracing-core/src/metadata.rs
+    pub const SET_MAX_BEFORE: u32 = 30;
+    // tracing/src/lib.rs
+    pub const MC_REG_WON: u32 = 40;
+    pub const MC_BEFORE_REGISTERED: u32 = 41;
+    pub const MC_REG_LOST: u32 = 42;
+    pub const MC_INTEREST_LOADED: u32 = 43;
+    // tracing-subscriber/src/registry/sharded.rs
+    pub const CLONE_BEFORE_ADD: u32 = 50;
+    pub const CLONE_AFTER_ADD: u32 = 51;
+    pub const CLOSE_BEFORE_SUB: u32 = 52;
+    pub const CLOSE_AFTER_SUB: u32 = 53;
+    pub const ENTER_AFTER_PUSH: u32 = 54;
+    pub const EXIT_AFTER_POP: u32 = 55;
+    pub const CLOSEGUARD_BEFORE_CLEAR: u32 = 56;
+    pub const DATA_CLEAR_START: u32 = 57;
+    // tracing-subscriber/src/reload.rs
+    pub const MODIFY_AFTER_UNLOCK: u32 = 60;
+}
